@@ -58,3 +58,49 @@ package upstream
 //@   property C04, C16
 //@   ensures err == nil ==> ups.Connection != nil                                                    :connected_means_connection
 //@   ensures err == nil && mustSecure ==> sessionOf(ups.Connection) != nil && sessionOf(ups.Connection).Secure()   :required_security_is_met_or_no_session
+
+// ===================================================================================================
+// C18: the upstream URL scheme selects the documented transport, or is rejected
+//@ pred socketScheme(s string) := s == "tcp" || s == "tcp+tls" || s == "unix" || s == "unixpacket" || s == "unix+tls" || s == "unixpacket+tls"
+//@ pred stdioScheme(s string) := s == "stdin" || s == "stdin+tls"
+//@ pred packetScheme(s string) := s == "udp" || s == "udp4" || s == "udp6" || s == "unixgram"
+//@ pred dnsScheme(s string) := s == "dns" || s == "dns+udp" || s == "dns+unixgram"
+// the protocols the README documents for --upstream
+//@ pred documentedUpstreamScheme(s string) := s == "tcp" || s == "tcp+tls" || s == "stdin" || s == "stdin+tls" || s == "unix" || s == "unix+tls" || s == "http" || s == "https" || s == "unixgram" || s == "udp" || s == "dns"
+
+//@ go func upstreamKindMatchesScheme(u Upstream) bool {
+//@    switch v := u.(type) {
+//@    case *Http: return webScheme(v.Address.Scheme)
+//@    case *Socket: return socketScheme(v.Address.Scheme)
+//@    case *InputOutput: return stdioScheme(v.Address.Scheme)
+//@    case *Packet: return packetScheme(v.Address.Scheme)
+//@    case *Dns: return dnsScheme(v.Address.Scheme)
+//@    }
+//@    return false
+//@ }
+//@ go func connOf(u Upstream) streams.Connection {
+//@    switch v := u.(type) {
+//@    case *Http: return v.Connection
+//@    case *Socket: return v.Connection
+//@    case *InputOutput: return v.Connection
+//@    case *Packet: return v.Connection
+//@    case *Dns: return v.Connection
+//@    }
+//@    return nil
+//@ }
+
+//@ func unmarshalUpstream
+//@   property C18, C04, C16
+//@   safe
+//@   pure
+//@   ensures err == nil ==> result != nil && upstreamKindMatchesScheme(result)                        :scheme_selects_the_documented_transport
+//@   ensures err != nil ==> result == nil                                                             :no_upstream_on_error
+//@   ensures err == nil ==> connOf(result) == nil                                                     :starts_unconnected
+//@   callsite errors.Errorf#1 (e error, address *addr.ProtoAddress) assert !documentedUpstreamScheme(address.Scheme)      :documented_scheme_never_rejected
+
+//@ func (ul *Upstreams) UnmarshalFlag
+//@   property C18, C16
+//@   safe
+//@   ensures err == nil ==> len(ul.Data) == old(len(ul.Data)) + 1 && ul.Data[len(ul.Data)-1] != nil && upstreamKindMatchesScheme(ul.Data[len(ul.Data)-1])   :appends_the_parsed_upstream_last
+//@   ensures err == nil ==> (forall i :: 0 <= i && i < old(len(ul.Data)) ==> ul.Data[i] == old(ul.Data[i]))                                                  :keeps_the_listed_order
+//@   ensures err != nil ==> spec_sameslice(ul.Data, old(ul.Data))                                                                                              :list_unchanged_on_error
